@@ -372,7 +372,8 @@ def composite(layers, pt):
             c = L.paint(pt)
             if c is None: return None
             if c[0] == '?': return ('?',) + tuple(c[1:])
-            src = (c[0] / 255 * L.alpha, c[1] / 255 * L.alpha, c[2] / 255 * L.alpha, L.alpha)
+            al = L.alpha * (c[3] if len(c) > 3 else 1.0)
+            src = (c[0] / 255 * al, c[1] / 255 * al, c[2] / 255 * al, al)
         else:
             ok = True
             for ct in L.clips:
